@@ -450,6 +450,12 @@ def _run(chk):
     for (dx, dy, r) in [(3, 4, 5), (6, 8, 10), (5, 12, 13), (0, 5, 5)]:
         corpus.append(dict(frames=[np.array([[0., 0.], [40., 40.]]), np.array([[float(dx), float(dy)], [40., 41.]])], sr=Fraction(r), memory=0,
                            max_size=linkgen.LIMIT, strategy='recursive', ndim=2))
+    # a per-axis range written with integers, as a tuple, a list and an integer ndarray: (2, 5) must mean (2.0, 5.0)
+    for sp in ('int', 'list', 'array'):
+        f0 = np.array([[0., 0.], [20., 3.], [40., 40.], [7., 30.]])
+        f1 = f0 + np.array([[1., 4.], [-1., -4.], [1., 3.], [0., 4.]])
+        corpus.append(dict(frames=[f0, f1[[2, 0, 3, 1]], f0[[1, 3, 0, 2]]], sr=(Fraction(2), Fraction(5)), memory=0, max_size=linkgen.LIMIT,
+                           strategy='recursive', ndim=2, sr_spell=sp))
     for k in range(n):
         c = corpus[k] if k < len(corpus) else c02.gen_case(rng, chk.tier)
         c['max_size'] = linkgen.LIMIT
